@@ -98,7 +98,9 @@ CanSendOne(o) ==
 
 CanSendClosed(o) == IsSend(o) /\ pend[o].lin = "" /\ SenderRejected(o)
 
-CanSendSent(o) == IsSend(o) /\ pend[o].lin = "" /\ cfg.kind = "os" /\ once
+\* (`Sent` while another send is in flight: which of two racing failures is reported is not promised)
+CanSendSent(o) == IsSend(o) /\ pend[o].lin = "" /\ cfg.kind = "os"
+                  /\ (once \/ \E s \in Others(o) : IsSend(s))
 
 \* `Full`: exact when nothing overlaps; under overlap a claimed-but-unpublished
 \* slot may make a non-blocking send report Full (C03 only constrains histories
